@@ -261,7 +261,7 @@ def rule_a11_offset(ctx):
     ctx.ob('A11.width', f, 'two numeric fields', len(fields) == 2, '', node=fx, nontrivial=False)
     # ---- sign test on a signed quantity
     tests = [t for t in cfg.stmt_nodes() if t.kind == 'test' and isinstance(t.ast.test, ast.Compare) and isinstance(t.ast.test.left, ast.Name) and
-             isinstance(t.ast.test.ops[0], (ast.Lt, ast.LtE)) and const_int(t.ast.test.comparators[0]) == 0]
+             isinstance(t.ast.test.ops[0], (ast.Lt, ast.LtE, ast.Gt, ast.GtE)) and const_int(t.ast.test.comparators[0]) == 0]
     if not tests:
         ctx.ob('A11.sign', f, 'sign of the offset is tested', False, 'no `<offset quantity> < 0` test')
     for t in tests:
